@@ -14,7 +14,7 @@ class Contract:
                  transparent=False, props=(), locals=None, gen=None, hints=None, consts=None, canary=None,
                  trusted=False, note="", bind=None, known=None, pure=True, native_args=None, decreases=None,
                  ghost=None, native=True, slice=None, path_limit=None, timeout=None, native_ensures=None,
-                 bounded_only=False, assumes=(), cases=None, params=None, shards=1, reveal=()):
+                 bounded_only=False, assumes=(), cases=None, params=None, shards=1, reveal=(), ignore=()):
         self.qual = qual
         self.args = OrderedDict(args)  # name -> type string
         self.returns = returns
@@ -47,6 +47,7 @@ class Contract:
         self.cases = cases
         self.shards = shards
         self.reveal = list(reveal)
+        self.ignore = list(ignore)  # class-level locations used for logging only: reads are arbitrary, writes dropped (listed)
         self.params = params  # parameter names of an external callee that has no source in /repo (always trusted)  # extra assumptions (listed in evidence), e.g. about opaque callees
 
     @property
@@ -77,7 +78,8 @@ class SpecFn:
 
 
 class Lemma:
-    def __init__(self, name, params, requires, ensures, induct=None, props=(), uses=(), base=None):
+    def __init__(self, name, params, requires, ensures, induct=None, props=(), uses=(), base=None, reveal=()):
+        self.reveal = list(reveal)
         self.name = name
         self.params = OrderedDict(params)
         self.requires = list(requires)
